@@ -137,3 +137,28 @@ def truth_uses(fn, pred):
     for e in out:
         if id(e) not in seen: seen.add(id(e)); uniq.append(e)
     return uniq
+
+_inl_cache = {}
+_resetters.append(_inl_cache.clear)
+def find_i(root, rel, qual, depth=2):
+    """like find(load(root, rel), qual) but with small private helpers inlined (sa/inline.py): rules that use it are
+    insensitive to 'extract helper function' refactorings.  The result is a copy: do not mix its nodes with nodes of
+    the module tree."""
+    key = (root, rel, qual, depth)
+    if key not in _inl_cache:
+        from sa import inline
+        t = load(root, rel); fn = find(t, qual)
+        try: _inl_cache[key] = inline.inline_function(fn, t, depth)
+        except RecursionError: _inl_cache[key] = fn
+    return _inl_cache[key]
+
+def clone(node):
+    """structural copy of an AST node (fields and positions only: the _parent links and other annotations are not
+    followed, unlike copy.deepcopy, which would copy the whole module through _parent)"""
+    if isinstance(node, list): return [clone(x) for x in node]
+    if not isinstance(node, ast.AST): return node
+    new = node.__class__()
+    for f, v in ast.iter_fields(node): setattr(new, f, clone(v))
+    for a in ("lineno", "col_offset", "end_lineno", "end_col_offset"):
+        if hasattr(node, a): setattr(new, a, getattr(node, a))
+    return new
